@@ -116,7 +116,7 @@ def build_tools(verbose=False):
                 raise FactError("cannot build protoschema:\n" + r.stderr[-4000:])
 
 
-def _prune(base, keep=4):
+def _prune(base, keep=24):
     try:
         ds = [os.path.join(base, d) for d in os.listdir(base)]
         ds = [d for d in ds if os.path.isdir(d)]
@@ -138,6 +138,10 @@ def ensure(config="default", repo=None, verbose=False):
     marker = os.path.join(d, "COMPLETE")
     failed = os.path.join(d, "COMPILE_ERROR")
     if os.path.exists(marker):
+        try:
+            os.utime(os.path.join(base, h), None)  # LRU: keep what is in use
+        except OSError:
+            pass
         return d
     if os.path.exists(failed):
         raise CompileError(config, open(failed).read())
